@@ -112,6 +112,10 @@ impl SeqSpec {
         self.setup = ops;
         self
     }
+    pub fn with_param(mut self, p: usize) -> Self {
+        self.extra_param = p;
+        self
+    }
 }
 
 pub const READS: Checks = Checks {
@@ -687,6 +691,11 @@ pub fn c03_seq_families(tier: &str) -> Vec<SeqSpec> {
         spec("C03-bigvals/D", &["D"], k2(), vec![Op::Put(0, 3), Op::Put(1, 3), Op::Snap, Op::Release(0), Op::Flush, Op::Compact(None, None)], if t { 6 } else { 4 }, ck)
             .with_setup(vec![Op::Put(0, 3), Op::Snap, Op::Put(0, 3)]),
     );
+    // a hot key: 130 versions of one key above a live snapshot (default blocks: the run of versions
+    // crosses block and filter-range boundaries inside one user key; one-entry blocks: the
+    // snapshot's version is 130 blocks behind the newest one)
+    fams.push(hot_key_family("C03-hot-key/D", "D", if t { 4 } else { 2 }, ck));
+    fams.push(hot_key_family("C03-hot-key/T300", "T300", if t { 4 } else { 2 }, ck));
     // up to four snapshots alive at once (released in any order)
     fams.push(
         spec(
@@ -1040,6 +1049,8 @@ pub fn c04(tier: &str) -> ! {
         fams.push(mk("C04/T1/d5xL3", "T1", a_c04(), 5, 3, true));
         fams.push(mk("C04/M2/d5xL3", "M2", a_c04(), 5, 3, false).lazy());
         fams.push(mk("C04/T300c/d4xL4", "T300c", a1(), 4, 4, true));
+        fams.push(hot_key_family("C04-hot-key/M2b", "M2b", 4, ck).with_extra(cursor_extra).with_param(4));
+        fams.push(hot_key_family("C04-hot-key/T300", "T300", 4, ck).with_extra(cursor_extra).with_param(4));
     } else {
         fams.push(mk("C04/T300/d3xL3", "T300", a1(), 3, 3, true));
         fams.push(mk("C04/T300/d4xL2", "T300", a1(), 4, 2, true));
@@ -1048,11 +1059,24 @@ pub fn c04(tier: &str) -> ! {
         fams.push(mk("C04/M2/d3xL3", "M2", a1(), 3, 3, false).lazy());
         fams.push(mk("C04/M2/d4xL2", "M2", a1(), 4, 2, false).lazy());
         fams.push(mk("C04/T300c/d3xL3", "T300c", a1(), 3, 3, true));
+        // a hot key: 130 versions of the middle key next to each other (memtable; with the
+        // snapshot of the setup still alive also in the tables), other keys around it
+        fams.push(hot_key_family("C04-hot-key/M2b", "M2b", 2, ck).with_extra(cursor_extra).with_param(3));
+        fams.push(hot_key_family("C04-hot-key/T300", "T300", 2, ck).with_extra(cursor_extra).with_param(3));
     }
     run_families(&mut rep, fams, budget(tier), |c| c.starts_with("C04.") || c == "iter.err");
     finish_common(&mut rep);
     rep.cov("oracle", json!("at every node: a full forward and backward scan equals the model; and every cursor program of the stated length over {seek(t) for t in keys and gap keys, seek_to_first, seek_to_last, next, prev} (next/prev only while valid) on a fresh iterator of the latest state and of every live snapshot keeps is_valid/key/value equal to a cursor over the sorted model"));
     rep.finish()
+}
+
+/// A hot key: the start state holds the three keys, a live snapshot and then 130 versions of the
+/// middle key (more than any "a few shadowed entries" shortcut of an iterator tolerates; 130
+/// adjacent entries of one user key also cross block and restart boundaries once flushed). The
+/// alphabet adds another 130 versions, writes around the hot key, flushes and compacts.
+pub fn hot_key_family(name: &str, cfg: &str, depth: usize, ck: Checks) -> SeqSpec {
+    let alphabet = vec![Op::PutMany(1, 130), Op::Put(2, 0), Op::Del(1), Op::Flush, Op::Compact(None, None), Op::Release(0), Op::Put(0, 0)];
+    spec(name, &[cfg], k3s(), alphabet, depth, ck).with_setup(vec![Op::Put(0, 0), Op::Put(1, 0), Op::Put(2, 0), Op::Snap, Op::PutMany(1, 130)])
 }
 
 /// Start from a non-initial state: two sessions that each wrote one key and were reopened without
